@@ -365,6 +365,11 @@ func (mw *msgWriter) addFiles(files []*File, isAttachment bool) {
 				file.setHeader(HeaderContentID, fmt.Sprintf("<%s>", sanitizeFilename(file.Name)))
 			}
 		}
+		// A user provided Content-ID is written to the MIME header as is, it must not be able to
+		// break out of the header line
+		if contentID, ok := file.getHeader(HeaderContentID); ok {
+			file.setHeader(HeaderContentID, sanitizeHeaderValue(contentID))
+		}
 		if mw.depth == 0 {
 			for header, val := range file.Header {
 				mw.writeHeader(Header(header), val...)
@@ -415,8 +420,13 @@ func (mw *msgWriter) writePart(part *Part, charset Charset) {
 		contentType = part.contentType.String()
 	}
 	contentTransferEnc := part.encoding.String()
+	// The description is free text provided by the user, it must not be written to the header as is
+	contentDescription := mw.encoder.Encode(mw.charset.String(), part.description)
 
 	if mw.depth == 0 {
+		if part.description != "" {
+			mw.writeHeader(HeaderContentDescription, contentDescription)
+		}
 		mw.writeHeader(HeaderContentTransferEnc, contentTransferEnc)
 		mw.writeHeader(HeaderContentType, contentType)
 		mw.writeString(SingleNewLine)
@@ -424,7 +434,7 @@ func (mw *msgWriter) writePart(part *Part, charset Charset) {
 	if mw.depth > 0 {
 		mimeHeader := textproto.MIMEHeader{}
 		if part.description != "" {
-			mimeHeader.Add(string(HeaderContentDescription), part.description)
+			mimeHeader.Add(string(HeaderContentDescription), contentDescription)
 		}
 		mimeHeader.Add(string(HeaderContentTransferEnc), contentTransferEnc)
 		mimeHeader.Add(string(HeaderContentType), contentType)
@@ -601,4 +611,22 @@ func sanitizeFilename(input string) string {
 		sanitized.WriteByte(input[i])
 	}
 	return sanitized.String()
+}
+
+// sanitizeHeaderValue replaces all control characters (including CR, LF and NUL) in a raw header
+// value with an underscore ('_') character.
+//
+// Parameters:
+//   - input: The raw header value.
+//
+// Returns:
+//   - The header value without control characters.
+func sanitizeHeaderValue(input string) string {
+	sanitized := []byte(input)
+	for i := range sanitized {
+		if sanitized[i] < 32 || sanitized[i] == 127 {
+			sanitized[i] = '_'
+		}
+	}
+	return string(sanitized)
 }
